@@ -155,6 +155,9 @@ func runC03(c *report.Ctx) {
 	// ---- (2) unlock scoped ---------------------------------------------------------------------------
 	ruleUnlockScoped(c)
 	rulePassphraseHashedWhole(c)
+	ruleCreationPatternOnlyForNewPassphrases(c)
+	rulePassphraseVerdictReturned(c, passphraseGates(c))
+	ruleKeyLengthTolerant(c)
 	ruleSequenceSiblings(c) // a wallet-built withdrawal only passes the engine with the sequence its script demands
 	sw := fn(c, pkgWallet, "WalletManager", "signWitnessTx")
 
